@@ -51,7 +51,13 @@ def run(ctx):
         return {"b": bool(n % 2), "i": n, "f": float(n), "s": str(n), "x": None}[t]
 
     def src_kind(items):
-        k = rng.choice(["list", "tuple", "gen", "iter", "range"])
+        k = rng.choice(["list", "tuple", "gen", "iter", "range", "vector", "vector"])
+        if k == "vector":
+            # another Vector as the source (its own value type may be a different one)
+            try:
+                return Vector(list(items)), k
+            except Exception:  # noqa: BLE001 - mixed or empty items: no Vector can hold them
+                return list(items), "list"
         if k == "list": return list(items), k
         if k == "tuple": return tuple(items), k
         if k == "gen": return (x for x in items), k
@@ -60,6 +66,19 @@ def run(ctx):
             return range(len(items)), k
         return list(items), "list"
 
+    # units are part of a Vector's value (== compares element lists and units): a vector built from another vector's
+    # extended properties (copied by default) has its own units
+    for items in ([1, 2, 3], [True], ["a", "b"], [1.5]):
+        for how in ("epd", "dict", "epd-iter"):
+            v1 = Vector(list(items), "volts")
+            src = v1.extended_properties if how != "dict" else dict(v1.extended_properties)
+            v2 = Vector(iter(list(items)) if how == "epd-iter" else list(items), extended_properties=src)
+            same_before = (v1 == v2)
+            v2.units = "amps"
+            ctx.case(("units-independent", str(items), how))
+            if not same_before or v1.units != "volts" or v2.units != "amps" or (v1 == v2) or dict(v1.extended_properties).get("NI_UnitDescription") != "volts":
+                ctx.violation(what="assigning the units of one Vector changed another Vector (shared property storage)", items=str(items), how=how,
+                              observed=f"v1.units={v1.units!r} v2.units={v2.units!r} equal={v1 == v2}", required="v1 volts, v2 amps, not equal")
     n_hist = 250 if ctx.quick else 8000
     for h in range(n_hist):
         t = rng.choice("bifs")
@@ -125,6 +144,9 @@ def run(ctx):
                 r = outcome(lambda: v.__setitem__(slice(*sl), src)); line = f"vsetslice {fmt(sl[0])} {fmt(sl[1])} {fmt(sl[2])} [{','.join(enc(x) for x in xs)}]"
                 lr = outcome(lambda: l.__setitem__(slice(*sl), list(xs))) if r[0] == "ok" else None
                 ctx.count("source", "slice-" + kind)
+                if any(not isinstance(x, vtype) for x in xs) and not (r[0] == "err" and r[1] == "TypeError"):
+                    ctx.violation(what="slice assignment with an item that is not of the value type", values=str(before), items=str(xs), source=kind,
+                                  value_type=vtype.__name__, observed=show(r), required="TypeError, nothing stored")
             elif op == "del":
                 r = outcome(lambda: v.__delitem__(i)); line = f"vdel {i}"
                 lr = outcome(lambda: l.__delitem__(i)) if r[0] == "ok" else None
@@ -133,9 +155,13 @@ def run(ctx):
                 lr = outcome(lambda: l.__delitem__(slice(*sl))) if r[0] == "ok" else None
             elif op == "insert":
                 x = anyv(); r = outcome(lambda: v.insert(i, x)); line = f"vinsert {i} {enc(x)}"
+                if not isinstance(x, vtype) and not (r[0] == "err" and r[1] == "TypeError"):
+                    ctx.violation(what="insert of an item that is not of the value type", item=repr(x), value_type=vtype.__name__, observed=show(r), required="TypeError")
                 lr = outcome(lambda: l.insert(i, x)) if r[0] == "ok" else None
             elif op == "append":
                 x = anyv(); r = outcome(lambda: v.append(x)); line = f"vappend {enc(x)}"
+                if not isinstance(x, vtype) and not (r[0] == "err" and r[1] == "TypeError"):
+                    ctx.violation(what="append of an item that is not of the value type", item=repr(x), value_type=vtype.__name__, observed=show(r), required="TypeError")
                 lr = outcome(lambda: l.append(x)) if r[0] == "ok" else None
             elif op in ("extend", "iadd"):
                 xs = [anyv() for _ in range(rng.randint(0, 4))]
@@ -172,6 +198,10 @@ def run(ctx):
                     ctx.violation(what="rejected call stored something", op=line, observed=str(list(v)), required=str(before))
             if lr is not None and lr[0] == "err":
                 ctx.violation(what="Vector accepted what a list rejects", op=line, observed="ok", required=show(lr))
+            if any(not isinstance(x, vtype) for x in v) or v._value_type is not vtype:
+                ctx.violation(what="an element is not an instance of the vector's value type", op=line, value_type=vtype.__name__,
+                              observed=str([type(x).__name__ for x in v]), required=f"all {vtype.__name__}")
+                break
             if list(v) != l or [type(x) for x in v] != [type(x) for x in l]:
                 ctx.violation(what="Vector differs from the list", op=line, observed=str(list(v)), required=str(l))
                 break
